@@ -252,7 +252,7 @@ def _process(ctx, label, meta, res, out, state, spec_compare):
         spec, md, rows = meta[gi]
         out.failures.append(Failure(case={"spec": spec}, observed="define() accepted it", expected="wf_def = false",
                                     kind="tie", note="model's wf_def rejects a definition define() accepts"))
-    for gi, ri in sorted(res["tie"])[:20]:
+    for gi, ri in sorted(res["tie"])[:3]:
         spec, md, rows = meta[gi]
         r = rows[ri]
         out.failures.append(Failure(case={"spec": spec, "assignment": r["assignment"]},
